@@ -24,7 +24,7 @@ from vlib import tlc, pool, fordrun, site  # noqa: E402
 from vlib.verdict import Check, machinery_failure  # noqa: E402
 
 PROP = "C18"
-ATOMS = ["a", "<", ">", "&", '"', "'", "\\", "  ", "*", "_", "`", "0", "1", "<b>", "&amp;", "[[m]]", "Ab", "\\\\\\"]
+ATOMS = ["a", ",b", "<", ">", "&", '"', "'", "\\", "  ", "*", "_", "`", "0", "1", "<b>", "&amp;", "[[m]]", "Ab", "\\\\\\"]
 
 
 def contents(maxlen):
